@@ -1,6 +1,6 @@
 """C13 configuration for ./check (see checks/propcfg.py for the keys)."""
 CFG = {
-    "modules": ["VaxisModel.Props.C13", "VaxisModel.Props.C13Body", "VaxisModel.Props.C13Ext", "VaxisModel.Props.C13Shift", "VaxisModel.Props.C13Child", "VaxisModel.Props.C13Parse", "VaxisModel.Props.C13Keypad", "VaxisModel.Props.C13KeypadPipe", "VaxisModel.Witness.F413"],
+    "modules": ["VaxisModel.Props.C13", "VaxisModel.Props.C13Body", "VaxisModel.Props.C13Ext", "VaxisModel.Props.C13Shift", "VaxisModel.Props.C13Child", "VaxisModel.Props.C13Parse", "VaxisModel.Props.C13Keypad", "VaxisModel.Props.C13KeypadPipe", "VaxisModel.Props.C13Uni", "VaxisModel.Witness.F413"],
     "extractors": ["C09", "C13", "C05", "C02"],
     "drivers": ["C13"],
     "trivial_prefix": ("-|-|", "-|-"),
